@@ -9,6 +9,24 @@
 (*                                  files whose mtime moved during the call *)
 (*   done   {files}                 the real rewrite returned               *)
 (*   expire {nodes}                 cache entries dropped between rewrites  *)
+(*   external {files}               between rewrites something else put the *)
+(*                                  files at `files` (hierarchy-valid)      *)
+(*   restart                        the agent restarted: a fresh plugin     *)
+(*                                  object and executor on the same files   *)
+(* Two callers of one executor (leveled driver, `begin` with target2/at): a *)
+(* second caller enters LeveledUpdateBatch after the at-th updater call of  *)
+(* the first batch.  Where the executor makes it wait, its batch is simply  *)
+(* the next rewrite of the segment.  Where it gets in at once, its begin /  *)
+(* done carry nested = TRUE and surround its calls inside the first batch:  *)
+(* (V) is demanded after every write of either batch, (T) of the nested     *)
+(* batch at its done, and at the done of the batch it overlapped the files  *)
+(* hold the target of one of the two; (N) is not demanded of overlapping    *)
+(* batches.  (Concurrency is outside C12's quantifier: an extra.)           *)
+(* A begin of the BE driver says `how` the real round was entered: through  *)
+(* the cpuset policy (a cpuset of the round's own choosing) or through one  *)
+(* of the paths that LEAVE the cpuset policy (feature disabled, cfsQuota    *)
+(* policy, BECPUManager), whose target is the node's BE pool (`cpus` of the *)
+(* reset event) for every BE cgroup.                                        *)
 (* Only PART 1 of CgroupTree (property level) is used: any write is         *)
 (* allowed, (V) must hold after every one of them, (T) and (N) at done.     *)
 (* File values arrive as JSON: cpuset = sorted array of CPU ids, limit =    *)
@@ -16,16 +34,67 @@
 (* and is no value of the domain (WellTyped rejects it).                    *)
 EXTENDS CgroupTree, TraceCommon
 
+\* Recorded finding C12-suppress-union-rewrites-unchanged (known_findings.json): the loose pass of applyCPUSetWithNonePolicy writes
+\* (BE root's old cpuset \cup new) into EVERY BE cgroup and the tight pass writes the new cpuset back, also where the cgroup held
+\* the new cpuset all along.  lib/pipeline.py validates the segments rejected for it a second time with this switch on: exactly
+\* those two writes are then no longer counted by clause (N); any other write to an unchanged file, (V) and (T) stay demanded.
+TolerateUnion == "VERIF_TOLERATE_C12_UNION" \in DOMAIN IOEnv
+
+VARIABLE strict     \* nodes that took, in the current rewrite, a write NOT explained by the recorded union pattern
+                    \* (= `written` unless TolerateUnion)
+VARIABLES outer,    \* <<>> | <<[old, target, written]>> : the batch in progress while a second caller's batch is nested in it
+          alt       \* targets of the batches that ran nested in the current one
+xvars == <<strict, outer, alt>>
+Nested(e) == Get(e, "nested", FALSE)
+
 DecV(k, x)   == IF k = "cpuset" THEN ToSet(x) ELSE x
 Dec(k, xs)   == [n \in 1..Len(xs) |-> DecV(k, xs[n])]
 WellTyped(k, a) == \A n \in DOMAIN a : IF k = "cpuset" THEN a[n] \subseteq 0..1023 ELSE a[n] \in 0..99
 
 Offenders(a) == {<<n, par[n]>> : n \in {m \in Nodes : par[m] # 0 /\ ~Leq(kind, a[m], a[par[m]])}}
 
+LeavesCPUSetPolicy == {"disabled", "cfsquota", "becpumgr"}
+
+\* the loose union of the recorded finding, for node n of the current rewrite
+LooseUnion(n) == old[1] \cup target[n]
+UnionPattern(n, v) ==
+  /\ TolerateUnion
+  /\ kind = "cpuset" /\ Get(Trace[seg], "driver", "") = "suppress"
+  /\ LooseUnion(n) # target[n]
+  /\ \/ v = LooseUnion(n)                                   \* loose pass
+     \/ v = target[n] /\ val[n] = LooseUnion(n)              \* tight pass, coming back from the loose value
+
 TBegin ==
-  /\ IsEvent("begin")
-  /\ LET t == Dec(kind, Ev.target) IN WellTyped(kind, t) /\ Begin(t)
-  /\ UNCHANGED ivars
+  /\ IsEvent("begin") /\ ~Nested(Ev)
+  /\ LET t == Dec(kind, Ev.target) IN
+       /\ WellTyped(kind, t) /\ Begin(t)
+       /\ Get(Ev, "how", "cpuset") \in LeavesCPUSetPolicy =>                 \* the recover paths aim at the node's BE pool
+            /\ kind = "cpuset" /\ Has(Trace[seg], "cpus")
+            /\ \A n \in Nodes : t[n] = ToSet(Trace[seg].cpus) \ ToSet(Get(Ev, "lse", <<>>))   \* (minus what an LSE pod holds meanwhile)
+  /\ strict' = {}
+  /\ UNCHANGED <<ivars, outer, alt>>
+
+\* a second caller's batch gets in while a batch is in progress
+TBeginNested ==
+  /\ IsEvent("begin") /\ Nested(Ev)
+  /\ phase = "busy" /\ outer = <<>>
+  /\ LET t == Dec(kind, Ev.target) IN
+       /\ WellTyped(kind, t) /\ DOMAIN t = Nodes /\ HierValid(par, kind, t)
+       /\ target' = t
+  /\ old' = val /\ written' = {} /\ strict' = {}
+  /\ outer' = <<[old |-> old, target |-> target, written |-> written]>>
+  /\ UNCHANGED <<par, kind, val, phase, ivars, alt>>
+
+TDoneNested ==
+  /\ IsEvent("done") /\ Nested(Ev)
+  /\ phase = "busy" /\ outer # <<>>
+  /\ Dec(kind, Ev.files) = val
+  /\ Expect(T, [T_every_file_must_hold |-> target])                         \* (T) of the nested batch
+  /\ old' = outer[1].old /\ target' = outer[1].target
+  /\ written' = outer[1].written \cup written /\ strict' = outer[1].written \cup written
+  /\ alt' = alt \cup {target}
+  /\ outer' = <<>>
+  /\ UNCHANGED <<par, kind, val, phase, ivars>>
 
 TCall ==
   /\ IsEvent("call")
@@ -35,22 +104,43 @@ TCall ==
        /\ Cardinality(w) <= 1                          \* observation granularity: one write at most per call
        /\ \A n \in Nodes \ w : f[n] = val[n]           \* a file not written keeps its value
        /\ IF w = {} THEN Call ELSE \E n \in w : Write(n, f[n])
+       /\ strict' = strict \cup {n \in w : ~UnionPattern(n, f[n])}
        /\ Expect(WellTyped(kind, f) /\ HierValid(par, kind, f),                                  \* (V)
                  [V_requires_each_child_within_its_parent_but |-> Offenders(f)])
-  /\ UNCHANGED ivars
+  /\ UNCHANGED <<ivars, outer, alt>>
 
 TDone ==
-  /\ IsEvent("done")
+  /\ IsEvent("done") /\ ~Nested(Ev)
+  /\ outer = <<>>
   /\ Dec(kind, Ev.files) = val
   /\ IF Explaining
      THEN /\ PrintT(<<"EXPECT", l, ToJson([T_every_file_must_hold |-> target,
                                             N_must_not_have_been_written |-> {n \in Nodes : old[n] = target[n]},
-                                            written |-> written])>>)
+                                            written |-> strict, or_every_file_holds_one_of |-> alt])>>)
           /\ phase' = "idle" /\ UNCHANGED <<par, kind, val, old, target, written>>
-     ELSE Done                                          \* (T) and (N)
-  /\ UNCHANGED ivars
+     ELSE IF alt # {}                                   \* batches overlapped: the files hold the target of one of them
+          THEN /\ phase = "busy" /\ (T \/ val \in alt)
+               /\ phase' = "idle" /\ UNCHANGED <<par, kind, val, old, target, written>>
+     ELSE IF TolerateUnion
+          THEN /\ phase = "busy" /\ T
+               /\ \A n \in Nodes : old[n] = target[n] => n \notin strict     \* (N) minus the two writes of the recorded pattern
+               /\ phase' = "idle" /\ UNCHANGED <<par, kind, val, old, target, written>>
+          ELSE Done                                     \* (T) and (N)
+  /\ alt' = {}
+  /\ UNCHANGED <<ivars, strict, outer>>
 
-TExpire == IsEvent("expire") /\ phase = "idle" /\ UNCHANGED vars
+TExpire  == IsEvent("expire")  /\ phase = "idle" /\ UNCHANGED <<vars, xvars>>
+TRestart == IsEvent("restart") /\ phase = "idle" /\ UNCHANGED <<vars, xvars>>
+
+TExternal ==
+  /\ IsEvent("external")
+  /\ LET f == Dec(kind, Ev.files) IN
+       /\ DOMAIN f = Nodes
+       /\ Expect(WellTyped(kind, f) /\ HierValid(par, kind, f),               \* = External(f) of CgroupTree (script sanity, not a
+                 [external_steps_leave_a_valid_hierarchy_but |-> Offenders(f)]) \*   demand on the code: the harness wrote these)
+       /\ phase = "idle" /\ val' = f
+       /\ UNCHANGED <<par, kind, old, target, written, phase>>
+  /\ UNCHANGED <<ivars, xvars>>
 
 TraceInit ==
   \E i \in Starts :
@@ -64,7 +154,9 @@ TraceInit ==
          /\ par = e.par /\ kind = e.kind
          /\ val = o /\ old = o /\ target = o /\ written = {} /\ phase = "idle"
     /\ cache = <<>> /\ pc = <<"idle">> /\ rewrites = 0 /\ algo = ""   \* PART 2 variables are not used here
+    /\ strict = {} /\ outer = <<>> /\ alt = {}
 
-TraceNext == TBegin \/ TCall \/ TDone \/ TExpire \/ (SegDone /\ phase = "idle" /\ UNCHANGED vars)
-TraceSpec == TraceInit /\ [][TraceNext]_<<vars, tvars>>
+TraceNext == \/ TBegin \/ TCall \/ TDone \/ TExpire \/ TRestart \/ TExternal \/ TBeginNested \/ TDoneNested
+             \/ (SegDone /\ phase = "idle" /\ UNCHANGED <<vars, xvars>>)
+TraceSpec == TraceInit /\ [][TraceNext]_<<vars, tvars, xvars>>
 =============================================================================
